@@ -59,7 +59,8 @@ def k_exit(n: int, f0: bool, f1: bool, f2: bool, f3: bool) -> str:
     return rt.ok()
 
 
-AK = ['file', 'dir', 'nonexistent', 'dot', 'non-utf8', 'untrashable', 'duplicate-of-first', 'link', 'dotdot-slash', 'empty-string']
+AK = ['file', 'dir', 'nonexistent', 'dot', 'non-utf8', 'untrashable', 'duplicate-of-first', 'link', 'dotdot-slash', 'empty-string',
+      'unwritable-info-dir']
 MODES = [([], []), (['-f'], []), (['-i'], ['y', 'n', 'y', 'n']), (['-v'], []), (['-i'], ['n', 'n', 'n', 'n']), (['-f', '-v'], [])]
 BADNAME = 'bad\udcff'
 
@@ -87,6 +88,9 @@ def arg_for(kind, pos):
         return '/w/u%d' % pos, [W.f('/w/u%d' % pos, 'U', 0o644, 1500 + pos)], '/w/u%d' % pos
     if k == 'empty-string':
         return '', [], None
+    if k == 'unwritable-info-dir':
+        # volume /w2: its only usable trash dir exists, but no file can be created in its info/ (PathFaultHook below)
+        return '/w2/n%d' % pos, [W.f('/w2/n%d' % pos, 'N', 0o644, 1600 + pos), W.d('/w2/.Trash-1000/files', 0o700), W.d('/w2/.Trash-1000/info', 0o700)], '/w2/n%d' % pos
     raise ValueError(k)
 
 
@@ -103,8 +107,12 @@ def build(kinds, mode):
         nodes += n
         args.append(a)
         paths.append(p)
-    world = W.W(mounts=['/', '/v', '/w'], cwd='/v', nodes=nodes)
+    world = W.W(mounts=['/', '/v', '/w', '/w2'], cwd='/v', nodes=nodes)
     return world, args, paths
+
+
+def _hook():
+    return scen.PathFaultHook('open', '/w2/.Trash-1000/info', 13)
 
 
 def classify(before, after, path, res_alone=None):
@@ -125,7 +133,7 @@ def _case(n, k0, k1, k2, k3, mode):
         opts, stdin = MODES[mode]
         e = scen.env()
         label = '+'.join(AK[k] for k in kinds)
-        m, res = scen.run_model(world, [{'snap': '/'}, C('put', opts + ['--'] + args, e, stdin=list(stdin), cwd='/v'), {'snap': '/'}])
+        m, res = scen.run_model(world, [{'snap': '/'}, C('put', opts + ['--'] + args, e, stdin=list(stdin), cwd='/v'), {'snap': '/'}], hook=_hook(), max_ops=60000)
         before, r, after = res
         if r['exc']:
             culprit = 'non-utf8' if 'surrogates not allowed' in r['exc'] else label
@@ -160,7 +168,7 @@ def _case(n, k0, k1, k2, k3, mode):
                 expect.append((None, '-f' not in opts))
             elif k in ('dot', 'dotdot-slash'):
                 expect.append((None, True))
-            elif k in ('non-utf8', 'untrashable'):
+            elif k in ('non-utf8', 'untrashable', 'unwritable-info-dir'):
                 expect.append(('untouched', not declined))
             else:
                 raise ValueError(k)
@@ -172,11 +180,11 @@ def _case(n, k0, k1, k2, k3, mode):
             if want_out is not None and not first_of_dup and got != want_out:
                 return rt.fail('C16:outcome:%s' % AK[kind], 'argument %d (%r, %s) of %r under %r: %s, expected %s; stderr %r' % (
                     pos, a, AK[kind], args, opts, got, want_out, r['err'][-300:]))
-            if AK[kind] in ('file', 'dir', 'link', 'non-utf8', 'untrashable', 'nonexistent') :
+            if AK[kind] in ('file', 'dir', 'link', 'non-utf8', 'untrashable', 'nonexistent', 'unwritable-info-dir'):
                 my_stdin = []
                 if interactive and want_out is not None:
                     my_stdin = ['n'] if (want_out == 'untouched' and not want_fail) else ['y']
-                ma, ra = scen.run_model(world, [{'snap': '/'}, C('put', opts + ['--', a], e, stdin=my_stdin, cwd='/v'), {'snap': '/'}])
+                ma, ra = scen.run_model(world, [{'snap': '/'}, C('put', opts + ['--', a], e, stdin=my_stdin, cwd='/v'), {'snap': '/'}], hook=_hook(), max_ops=60000)
                 alone = classify(ra[0], ra[2], p)
                 if alone != got and not first_of_dup:
                     return rt.fail('C16:outcome-depends-on-neighbours:%s' % AK[kind],
@@ -198,19 +206,19 @@ def _case(n, k0, k1, k2, k3, mode):
 def w_lists(n: int, k0: int, k1: int, k2: int, mode: int) -> str:
     """
     pre: PARTITION is None or k0 == PARTITION
-    pre: 1 <= n <= 3 and 0 <= k0 < 10 and 0 <= k1 < 10 and 0 <= k2 < 10 and 0 <= mode < 6
+    pre: 1 <= n <= 3 and 0 <= k0 < 11 and 0 <= k1 < 11 and 0 <= k2 < 11 and 0 <= mode < 6
     post: _ == ''
     """
-    return _case(rt.sel(n, 4), rt.sel(k0, 10), rt.sel(k1, 10), rt.sel(k2, 10), 0, rt.sel(mode, 6))
+    return _case(rt.sel(n, 4), rt.sel(k0, 11), rt.sel(k1, 11), rt.sel(k2, 11), 0, rt.sel(mode, 6))
 
 
 def w_lists4(k0: int, k1: int, k2: int, k3: int, mode: int) -> str:
     """
     pre: PARTITION is None or k0 == PARTITION
-    pre: 0 <= k0 < 10 and 0 <= k1 < 10 and 0 <= k2 < 10 and 0 <= k3 < 10 and 0 <= mode < 6
+    pre: 0 <= k0 < 11 and 0 <= k1 < 11 and 0 <= k2 < 11 and 0 <= k3 < 11 and 0 <= mode < 6
     post: _ == ''
     """
-    return _case(4, rt.sel(k0, 10), rt.sel(k1, 10), rt.sel(k2, 10), rt.sel(k3, 10), rt.sel(mode, 6))
+    return _case(4, rt.sel(k0, 11), rt.sel(k1, 11), rt.sel(k2, 11), rt.sel(k3, 11), rt.sel(mode, 6))
 
 
 def obligations(tier):
@@ -218,10 +226,10 @@ def obligations(tier):
         CH('K_exit_code_and_iteration', MOD, 'k_exit', timeout=120, engine='K', regime='traced',
            encodes=['Context.trash_each', 'TrashPutReporter.exit_code', 'TrashAllResult.any_failure'],
            stubs=['SingleTrasher -> symbolic results'], bounds='0..4 arguments, every failure pattern'),
-        CH('W_argument_lists_up_to_3', MOD, 'w_lists', timeout=2400, partitions=list(range(10)), engine='W', regime='selector',
-           encodes=K.PUT_FUNCS, stubs=K.STUBS, bounds='lists of 1..3 arguments x 10 argument kinds per position x 6 option sets'),
+        CH('W_argument_lists_up_to_3', MOD, 'w_lists', timeout=2400, partitions=list(range(11)), engine='W', regime='selector',
+           encodes=K.PUT_FUNCS, stubs=K.STUBS, bounds='lists of 1..3 arguments x 11 argument kinds per position x 6 option sets'),
     ]
     if tier == 'thorough':
-        obs.append(CH('W_argument_lists_of_4', MOD, 'w_lists4', timeout=7000, partitions=list(range(10)), twin=False, engine='W',
-                      regime='selector', encodes=K.PUT_FUNCS, stubs=K.STUBS, bounds='lists of 4 arguments x 10 kinds per position x 6 option sets'))
+        obs.append(CH('W_argument_lists_of_4', MOD, 'w_lists4', timeout=7000, partitions=list(range(11)), twin=False, engine='W',
+                      regime='selector', encodes=K.PUT_FUNCS, stubs=K.STUBS, bounds='lists of 4 arguments x 11 kinds per position x 6 option sets'))
     return obs
